@@ -181,7 +181,9 @@ reg("C07", harness="c07_stream", level="model_checking", deadline=(500, 2400), e
                "Longer streams (up to >64 KiB output) are covered by the closure of all single split points and all uniform chunk-size pairs.",
     level_note="chunk sizes outside the alphabets and histories on long streams beyond single-split/uniform are not covered; flush budget <=1 (2) "
                "and <=2 consecutive empty calls bound the deflate graph; a graph that hits its state cap is reported (exhaustive:false).",
-    runs=[dict(flavour="sim", part="inflate"), dict(flavour="sim", part="deflate"), dict(flavour="sim", part="deflate-layers")],
+    runs={"quick": [dict(flavour="sim", part="inflate"), dict(flavour="sim", part="deflate"), dict(flavour="sim", part="deflate-layers")],
+          "thorough": [dict(flavour="sim", part="inflate"), dict(flavour="sim", part="deflate"), dict(flavour="sim", part="deflate-layers"),
+                       dict(flavour="h8k", part="inflate"), dict(flavour="lht", part="deflate-layers")]},
     rule="state = normalised image of inflate_state / isal_zstream+level_buf + cursor; transition = one real API call under one environment "
          "choice; traces_validated_against_impl = root-to-terminal paths (all are implementation executions); distinct_nontrivial = graphs and "
          "stream/cpu combinations completed.")
@@ -195,7 +197,8 @@ reg("C14", harness="c14_flush", level="model_checking", deadline=(300, 1800), ex
                "window. Longer repetitive inputs: one or two flush requests at every call index / pair of indices. One-shot: all ordered pairs "
                "from 48 inputs x levels x 3 CPU levels: FULL_FLUSH output is unterminated + byte aligned and concatenates into one valid stream.",
     level_note="flush budget 2 in graphs; positions sweep uses uniform input chunks; trusted: ref/ref_inflate.c window/distance accounting.",
-    runs=[dict(flavour="sim", part="graphs"), dict(flavour="sim", part="positions"), dict(flavour="sim", part="stateless")],
+    runs={"quick": [dict(flavour="sim", part="graphs"), dict(flavour="sim", part="positions"), dict(flavour="sim", part="stateless")],
+          "thorough": [dict(flavour="sim", part="graphs"), dict(flavour="sim", part="positions"), dict(flavour="sim", part="stateless"), dict(flavour="h8k", part="positions")]},
     rule="state/transition as in C07; a flush point = SYNC/FULL call returning with avail_in==0 and avail_out>0; distinct_nontrivial = graphs, "
          "(input,level,cpu) position sweeps and (A,B) pairs completed.")
 
@@ -226,7 +229,9 @@ reg("C06", harness="c06_mutants", level="fault_enumeration", deadline=(360, 2400
                "accepted only if the independent decoder finds the mutated bytes valid with equal output; guard pages catch any write beyond "
                "avail_out; a driver horizon catches non-termination.",
     level_note="second-order mutants and seeds beyond 64 bytes are not enumerated; trusted: ref/ref_inflate.c verdict/classification.",
-    runs=[dict(flavour="sim", part="faults"), dict(flavour="sim", part="short"), dict(flavour="sim", part="closure"), dict(flavour="sim", part="explore")],
+    runs={"quick": [dict(flavour="sim", part="faults"), dict(flavour="sim", part="short"), dict(flavour="sim", part="closure"), dict(flavour="sim", part="explore")],
+          "thorough": [dict(flavour="sim", part="faults"), dict(flavour="sim", part="short"), dict(flavour="sim", part="closure"), dict(flavour="sim", part="explore"),
+                       dict(flavour="h8k", part="closure")]},
     rule="case = (candidate bytes, mode, driver, output capacity, kernel); a candidate is non-trivial iff the reference verdict differs from "
          "VALID (truncated or invalid); distinct_nontrivial counts distinct such candidates (hash of bytes+mode).")
 
@@ -274,7 +279,8 @@ reg("C18", harness="c18_huff", level="exploration", deadline=(300, 1800), extra_
                "derived from the parsed header, both parities) and the source data round-trip at level 0 (all flush modes, 3 kernels). Installing a table is "
                "attempted at every state of level-0 deflate graphs: accepted iff no block is open, refusals change nothing.",
     level_note="histograms outside the weight alphabet/subsets are not enumerated; entry emission re-states igzip/huffman.h getters; trusted: ref_inflate header parser.",
-    runs=[dict(flavour="sim", part="weights"), dict(flavour="sim", part="shapes"), dict(flavour="sim", part="install")],
+    runs={"quick": [dict(flavour="sim", part="weights"), dict(flavour="sim", part="shapes"), dict(flavour="sim", part="install"), dict(flavour="lht", part="shapes")],
+          "thorough": [dict(flavour="sim", part="weights"), dict(flavour="sim", part="shapes"), dict(flavour="sim", part="install"), dict(flavour="lht", part="shapes"), dict(flavour="lht", part="weights"), dict(flavour="h8k", part="shapes")]},
     rule="case = (histogram, builder); distinct_nontrivial = distinct histograms; evaluations = builder calls + table decodes + round trips.")
 
 
